@@ -175,7 +175,9 @@ CHECKS = {
               "table of <=2 rows TLC enumerates is built as a real JokerSamples (rotating deg/rad, m/s / km/s, d / yr, t_ref present "
               "/ absent, poly_trend 1/2, n_offsets 0/1) and put through wrap_K, get_time_with_phase / get_t0, pack->unpack, integer / "
               "slice / mask / array indexing, copy, mean, std, median_period; results projected to the lattice are validated by the "
-              "SampleTableTrace monitor; seeded random tables go to 300 rows."),
+              "SampleTableTrace monitor; seeded random tables go to 300 rows. wrap_K is also applied to a table whose orbits have already "
+              "been read (read, wrap in place, read again, replace a column, read again): the curve may not come from anything the "
+              "object remembered about the rows as they were."),
         design_ref="DESIGN.md section 3 C17",
         note=("Trusted: TLC, astropy. pack->unpack identity is checked with the table's own units (and for tables already in internal "
               "units with default arguments): pack() by design converts to internal units otherwise. Lattice tolerance 1e-7."),
